@@ -77,58 +77,72 @@ def gen_source(shape):
             lines.append("    pass")
         lines.append("")
 
-        def replace(tab, ms):
-            for m in ms:
-                tab = [o for o in tab if defs[o][0] != defs[m][0]] + [m]
-            return tab
+        # reference: what the attribute f of this class is -- kind plain | ovld; for an overloaded f its table as ovld keeps it, keyed by
+        # (parameter type, tiebreak): a definition registered INTO a function that already holds the same signature of its own pushes the older
+        # one down (tiebreak -1, still reachable through call_next), while a definition with the signature of an inherited (mixed-in) method
+        # takes its place; marker = still carries extend_super; indict = in the class's own namespace
+        def view(at_):
+            return {(defs[at_["plain"]][0], 0): at_["plain"]} if at_["kind"] == "plain" else dict(at_["tabd"])
 
-        def as_table(at):
-            return [at["plain"]] if at["kind"] == "plain" else list(at["table"])
+        def reg(cur_, m_):
+            def push(key, val):
+                if key in cur_["own"] and key in cur_["tabd"]:
+                    push((key[0], key[1] - 1), cur_["tabd"][key])
+                cur_["tabd"][key] = val
+                cur_["own"].add(key)
+            push((defs[m_][0], 0), m_)
 
-        # reference: what the attribute f of this class is (kind plain|ovld, table, marker = still carries extend_super, in its own __dict__)
         marked = bool(c.get("extend")) and bool(own)
-        marked_first = marked and min(c.get("extend_at", 0), len(own) - 1) == 0     # the marker only survives on the function object of a FIRST definition
-        at = None
-        if c["root"] != "sub":
-            if not own:
-                at = None
-            elif marked:
-                at = dict(kind="ovld", table=replace([], own), marker=marked_first)      # nothing to extend: the marker stays on the function
-            elif (len(own) == 1 and c.get("deco_at") is None) or c["root"] == "plain":
-                at = dict(kind="plain", plain=own[-1], marker=False)             # a single definition is an ordinary method: no dispatch at all
-            else:
-                at = dict(kind="ovld", table=replace([], own), marker=False)
+        ext_i = min(c.get("extend_at", 0), len(own) - 1) if marked else None
+        deco_i = c.get("deco_at") if not marked else None
+        cur = None
+        if c["root"] == "plain":
+            if own:
+                cur = dict(kind="ovld", tabd={(defs[own[-1]][0], 0): own[-1]}, own=set(), marker=True) if marked else dict(kind="plain", plain=own[-1], marker=False)
         else:
-            vals = [attrs.get(b) for b in c["bases"]]
+            vals = [attrs.get(b) for b in c["bases"]] if c["root"] == "sub" else []
             ovlds = [v for v in vals if v is not None and v["kind"] == "ovld"]
             later_marked = [v for v in ovlds[1:] if v["marker"]]
-            prepop = None
-            # ... or the first overloaded f among the bases carries the marker and another base has a plain (single-definition) f: the
-            # marked one extends it
-            first_marked_plain = bool(ovlds) and ovlds[0]["marker"] and any(v is not None and v["kind"] == "plain" for v in vals)
-            if later_marked or first_marked_plain:
-                # a later base whose f still carries extend_super (a mixin class): merged into the first overloaded f when the class is prepared
-                tab = list(ovlds[0]["table"])
+            plains = [v for v in vals if v is not None and v["kind"] == "plain"]
+            # when the class is prepared: a later base whose f still carries extend_super (a mixin class) is merged into the first overloaded f;
+            # so is a plain (single-definition) f of another base when the first overloaded f itself carries the marker
+            if later_marked or (ovlds and ovlds[0]["marker"] and plains):
+                cur = dict(kind="ovld", tabd=dict(ovlds[0]["tabd"]), own=set(), marker=False)
                 for v in later_marked:
-                    tab = replace(tab, v["table"])
-                for v in vals:
-                    if v is not None and v["kind"] == "plain":
-                        tab = replace(tab, [v["plain"]])
-                prepop = dict(kind="ovld", table=tab, marker=False)
-            if prepop is not None:
-                at = dict(prepop, table=replace(prepop["table"], own)) if own else prepop
-            elif not own:
-                at = None
-            elif marked:
-                tab = []
-                have = [v for v in vals if v is not None]
-                for v in have:
-                    tab = replace(tab, as_table(v))
-                at = dict(kind="ovld", table=replace(tab, own), marker=(not have) and marked_first)
-            elif len(own) == 1 and c.get("deco_at") is None:
-                at = dict(kind="plain", plain=own[0], marker=False)
-            else:
-                at = dict(kind="ovld", table=replace([], own), marker=False)
+                    cur["tabd"].update(v["tabd"])
+                for v in plains:
+                    reg(cur, v["plain"])
+            for di, m in enumerate(own):
+                t_ = defs[m][0]
+                if di == ext_i:
+                    mixins = [view(v) for v in vals if v is not None] + ([view(cur)] if cur is not None else [])
+                    if mixins:
+                        tabd = {}
+                        for v in mixins:
+                            tabd.update(v)
+                        tabd[(t_, 0)] = m
+                        cur = dict(kind="ovld", tabd=tabd, own=set(), marker=False)
+                    else:
+                        cur = dict(kind="ovld", tabd={(t_, 0): m}, own={(t_, 0)}, marker=True)   # nothing to extend: the marker stays
+                elif di == deco_i:
+                    if cur is None:
+                        cur = dict(kind="ovld", tabd={(t_, 0): m}, own={(t_, 0)}, marker=False)
+                    elif cur["kind"] == "plain":
+                        p_ = cur["plain"]
+                        cur = dict(kind="ovld", tabd={(defs[p_][0], 0): p_}, own={(defs[p_][0], 0)}, marker=False)
+                        reg(cur, m)
+                    else:
+                        reg(cur, m)
+                else:
+                    if cur is None:
+                        cur = dict(kind="plain", plain=m, marker=False)
+                    elif cur["kind"] == "plain":
+                        p_ = cur["plain"]
+                        cur = dict(kind="ovld", tabd={(defs[p_][0], 0): p_}, own={(defs[p_][0], 0)}, marker=False)
+                        reg(cur, m)
+                    else:
+                        reg(cur, m)
+        at = cur
         indict[ci] = at is not None
         if at is None:
             # plain attribute inheritance: the first class in MRO order that has f in its own namespace
@@ -137,7 +151,7 @@ def gen_source(shape):
                     at = attrs[b]
                     break
         attrs[ci] = at
-        tables[ci] = None if at is None else (("plain", at["plain"]) if at["kind"] == "plain" else at["table"])
+        tables[ci] = None if at is None else (("plain", at["plain"]) if at["kind"] == "plain" else dict(at["tabd"]))
     for m, (t, kind) in defs.items():
         lines.append(f"def r{m}(self, x: {t}):")
         lines.append(f"    LOG.append(({m}, (x,), {{}}, self))")
@@ -198,13 +212,14 @@ def make_run(W, shape, known_active=None):
             if tab is None:
                 continue
             inst = ns[f"C{ci}"]()
-            k_ = tuple(tab)
+            k_ = tab if isinstance(tab, tuple) else tuple(sorted(tab.items(), key=repr))
             if k_ not in refs:
                 if isinstance(tab, tuple):
                     refs[k_] = type("Holder", (), {"f": ns[f"r{tab[1]}"]})
                 else:
+                    # a flat function with the same definitions; per signature the older (pushed-down) ones are registered first
                     ref = Ovld()
-                    for m in tab:
+                    for (t_, tb_), m in sorted(tab.items(), key=lambda kv: (kv[0][0], kv[0][1])):
                         ref.register(ns[f"r{m}"])
                     refs[k_] = type("Holder", (), {"f": ref})
             holder = refs[k_]()
@@ -216,7 +231,7 @@ def make_run(W, shape, known_active=None):
                 if got != exp or not selfok or got[1][0] in ("EXC", "LOOP"):
                     ok = False
         nontriv = sum(1 for t in trace if len(t["got"][0]) >= 1)
-        return Verdict(ok, (), dict(source=src if not ok else None, tables={f"C{k}": v for k, v in tables.items()}, trace=trace),
+        return Verdict(ok, (), dict(source=src if not ok else None, tables={f"C{k}": (v if not isinstance(v, dict) else [[list(kk), vv] for kk, vv in sorted(v.items(), key=repr)]) for k, v in tables.items()}, trace=trace),
                        [f"classes{nclasses}"], nontrivial=nontriv >= 2)
 
     return run
